@@ -25,6 +25,16 @@ PROP = {
              "cells known or unknown to the resolver, pruned branches or too short: result vs the model, whose value decoder takes "
              "the resolver as context, and oracle 'a value decodes inside a dictionary exactly as it decodes outside under the same "
              "decoder' (also for Ref[Message] values, which use the decoder's hasher: message hash inside = outside = cell hash). "
+             "(8) the size-only label parser loadLabelSize on single labels of every form and width (m = 0..1023, boundary values), "
+             "leaf counting countLeafs / hashmapAugExtraCountLeafs (hooks for every key width; 256-bit keys also through "
+             "BlockExtra.InMsgDescrLength / OutMsgDescrLength) on plain and augmented dictionaries with all label modes and on "
+             "malformed ones, and HashmapAugE[key, Uint32, Uint32] decoding (Keys/Values) of dictionaries written by an independent "
+             "augmented encoder incl. missing/short extras: vs model; oracles: count = number of entries = number of decoded "
+             "entries, valid augmented dictionaries decode to their mapping; (9) histories on tlb.ConfigParams objects (built by "
+             "NewHashmap or decoded): CloneKeepingSubsetOfKeys with prefix / suffix / random / all / absent / repeated / unsorted key "
+             "arguments, then Items/Get/Put/Marshal/Unmarshal on source AND clones in any interleaving: vs model (clone = filter "
+             "into a new object); oracles: every object answers by its own mapping at every point whatever happened to the others, "
+             "the keys argument is unchanged, every encoding decodes to its object's mapping. "
              "Oracles on the implementation (streams 1-5): decode(encode m) = the pairs in ascending bit "
              "order; equal cells for two insertion orders and for NewHashmap vs Put; duplicate keys rejected; valid foreign "
              "dictionaries decode to their mapping; Get/Put answers and the re-encoded dictionary agree with a reference map; every "
@@ -39,13 +49,16 @@ PROP = {
                     "strict total order (also after any history of Put/Marshal/Items/Get on one object: C05_marshal_does_not_mutate, "
                     "C05_history_marshal_sound; decoding into a used object overwrites everything: C05_decode_overwrites_everything; the "
                     "decoder context reaches every leaf unchanged, a dictionary decodes iff every leaf decodes under that context and "
-                    "then to exactly those values: C05_decoder_context_reaches_leaves), and the Compare of UintN/IntN/BitsN/AddressWithWorkchain is shown to be such an order "
+                    "then to exactly those values: C05_decoder_context_reaches_leaves; leaf counting with the size-only label parser equals the "
+                    "number of entries for every valid plain or augmented dictionary with any label forms: C05_count_leafs, "
+                    "C05_decode_aug_any_label_form (which also gives the HashmapAugE decode round trip); CloneKeepingSubsetOfKeys is "
+                    "the restriction of the mapping to the requested keys: C05_clone_subset), and the Compare of UintN/IntN/BitsN/AddressWithWorkchain is shown to be such an order "
                     "(numeric / two's complement / bytes / uint32(workchain)+bytes = bit order of the 288-bit key). "
                     "coq/Properties/C05_gen.v re-checks on today's source that every key type writes and reads exactly FixedSize() "
                     "bits and compares the way its encoding requires."),
     'assumptions': ["bit strings and cells are the ideal objects of C06 (list of bits, <= 1023 bits, <= 4 refs); pruned-branch cells inside a dictionary (mapInner skips them) are not modelled",
                     "the value codec is a parameter satisfying decode(encode v) = v in tail position (C03's law); the harness uses tlb.Uint32 values",
-                    "HashmapAug/HashmapAugE are decode-only in the library (MarshalTLB returns 'not implemented') and not modelled",
+                    "HashmapAug/HashmapAugE are decode-only in the library (MarshalTLB returns 'not implemented'); their decoder and the leaf counters are modelled (Model/HashmapAug.v), extras are decoded but not observable (unexported)",
                     "known finding addr-workchain-int8: AddressWithWorkchain.Workchain is int8, so foreign 288-bit keys with a workchain outside -128..127 are truncated by the key decoder (C05_address_workchain_int8_refuted); dictionary-level theorems are about key bits and unaffected",
                     "HashmapAug/HashmapAugE.MarshalTLB fails before touching the slices, so object histories do not apply to them",
                     "two objects built from the same slices alias each other by design of NewHashmap: the history stream only reads through an alias (Put through one alias is visible through the other)",
@@ -62,7 +75,7 @@ META = {
              "dictionary with short/long/same labels per edge decodes to the mapping it represents; Get/Put on a decoded dictionary "
              "then Marshal/Unmarshal agree with lookup/update of the abstract map for every key type (unsigned, signed, bytes, 288-bit "
              "address keys). The extracted model reproduces the implementation's cell trees, decode results and Get/Put answers "
-             "exactly on ~18k (quick) / ~135k (thorough) generated cases incl. malformed dictionaries and multi-step histories on one "
+             "exactly on ~21k (quick) / ~160k (thorough) generated cases incl. malformed dictionaries and multi-step histories on one "
              "dictionary object (Marshal must not change what the object answers or how it encodes the next time)."),
     'design_ref': 'DESIGN.md §6 C05, §7 F19',
     'note': ("Three defects repaired in /repo (AddressWithWorkchain.MarshalTLB missing; Hashmap.MarshalTLB depended on slice order; "
